@@ -211,6 +211,36 @@ def parse_tlc_output(text, res):
     return res
 
 
+# ---- machine-wide bound on concurrently running TLC JVMs ----
+# Several checks (or several developers' runs) on one machine would otherwise start dozens of JVMs at once and
+# exhaust memory.  A slot is an flock'ed file; waiting for a slot happens outside the TLC timeout.
+_TLC_SLOTS = int(os.environ.get("VERIF_TLC_SLOTS", "20"))
+_TLC_SLOT_DIR = os.path.join(tempfile.gettempdir(), "unytverif_tlc_slots")
+
+
+def _tlc_slot_acquire():
+    if _TLC_SLOTS <= 0:
+        return None
+    import fcntl
+
+    os.makedirs(_TLC_SLOT_DIR, exist_ok=True)
+    while True:
+        for i in range(_TLC_SLOTS):
+            f = open(os.path.join(_TLC_SLOT_DIR, f"slot{i}"), "w")
+            try:
+                fcntl.flock(f, fcntl.LOCK_EX | fcntl.LOCK_NB)
+                return f
+            except OSError:
+                f.close()
+        time.sleep(0.5)
+
+
+def _tlc_slot_release(f):
+    if f is not None:
+        f.close()
+
+
+
 class Check:
     def __init__(self, pid, tier="quick", seed=0, replay=None):
         self.pid = pid
@@ -333,6 +363,7 @@ class Check:
         if depth:
             cmd += ["-depth", str(depth)]
         cmd += ["-config", cfg + ".cfg", module + ".tla"]
+        slot = _tlc_slot_acquire()
         t = time.time()
         try:
             p = subprocess.run(
@@ -346,6 +377,8 @@ class Check:
         except subprocess.TimeoutExpired:
             subprocess.run(["pkill", "-f", meta], check=False)
             raise MachineryFailure(f"TLC timeout after {timeout}s on {module}/{cfg}")
+        finally:
+            _tlc_slot_release(slot)
         res = TLCResult()
         res.wall = time.time() - t
         res.cmd = " ".join(cmd[cmd.index("tlc2.TLC") :])
